@@ -93,7 +93,7 @@ PROPS = {
     "C02": {"mc_quick": ["c02q"], "mc_thorough": ["c02", "c02_deep"],
             "profiles": {"default": (80, 2000), "stop": (120, 3000)}, "conf": {"conf_full": (60, 800)}},
     "C03": {"mc_quick": ["c03q"], "mc_thorough": ["c03"],
-            "profiles": {"default": (60, 1500), "term": (140, 3500)}, "conf": {"conf_full": (60, 800)}},
+            "profiles": {"default": (60, 1500), "term": (140, 3500)}, "conf": {"conf_full": (40, 600), "conf_kids": (30, 400)}},
     "C04": {"mc_quick": ["c04"], "mc_thorough": ["c04", "c02"],
             "profiles": {"default": (80, 2000), "acct": (120, 3000)}, "conf": {"conf_full": (60, 800)}},
     "C05": {"mc_quick": ["c05q"], "mc_thorough": ["c05"],
@@ -113,7 +113,7 @@ PROPS = {
     "C08": {"mc_quick": ["c08q"], "mc_thorough": ["c08"],
             "profiles": {"shutdown": (200, 5000)}, "conf": {"conf_full": (60, 800)}},
     "C18": {"mc_quick": ["c18"], "mc_thorough": ["c18", "c03"],
-            "profiles": {"signals": (200, 5000)}, "conf": {"conf_full": (60, 800)}},
+            "profiles": {"signals": (200, 5000)}, "conf": {"conf_full": (30, 500), "conf_kids": (40, 600)}},
     "C19": {"mc_quick": ["c19q"], "mc_thorough": ["c19"],
             "profiles": {"boot": (200, 5000)}, "conf": {"conf_full": (60, 800)}},
 }
